@@ -152,6 +152,12 @@ def translate_pattern(pattern: str, flags: int = 0, xsd_version: str = '1.0',
             if match is None:
                 msg = "invalid quantifier {!r} at position {}: {!r}"
                 raise RegexError(msg.format(ch, pos, pattern))
+            elif match.group(2) and int(match.group()[1:].split(',')[0]) > int(match.group(2)):
+                msg = "invalid quantifier {!r} at position {}: {!r}"
+                raise RegexError(msg.format(match.group(), pos, pattern))
+            elif regex and regex[-1] in (group_open_char, '|'):
+                msg = "unexpected quantifier {!r} at position {}: {!r}"
+                raise RegexError(msg.format(match.group(), pos, pattern))
 
             if regex and regex[-1] in ('^', r'(?<!\n\Z)^', '$', r'$(?!\n\Z)'):
                 # ^{n} or ${n} allowed but useless. Invalid in Python re
@@ -160,7 +166,7 @@ def translate_pattern(pattern: str, flags: int = 0, xsd_version: str = '1.0',
 
             regex.append(match.group())
             pos += len(match.group())
-            if pos < pattern_len and pattern[pos] in '?+*':
+            if pos < pattern_len and pattern[pos] in '?+*{':
                 if not lazy_quantifiers or pattern[pos] != '?':
                     msg = "unexpected meta character {!r} at position {}: {!r}"
                     raise RegexError(msg.format(pattern[pos], pos, pattern))
@@ -191,6 +197,10 @@ def translate_pattern(pattern: str, flags: int = 0, xsd_version: str = '1.0',
             if pos == 0:
                 msg = "unexpected quantifier {!r} at position {}: {!r}"
                 raise RegexError(msg.format(ch, pos, pattern))
+            elif regex and regex[-1] in (group_open_char, '|') \
+                    and pattern[pos - 1:pos + 2] != '(?:':
+                msg = "unexpected quantifier {!r} at position {}: {!r}"
+                raise RegexError(msg.format(ch, pos, pattern))
             elif pos < pattern_len - 1 and pattern[pos + 1] in '?+*{':
                 if not lazy_quantifiers or pattern[pos + 1] != '?':
                     msg = "unexpected meta character {!r} at position {}: {!r}"
@@ -212,6 +222,9 @@ def translate_pattern(pattern: str, flags: int = 0, xsd_version: str = '1.0',
             if pos >= pattern_len:
                 regex.append('\\')
             elif pattern[pos].isdigit():
+                if not 0 < int(pattern[pos]) <= total_groups:
+                    msg = "invalid back-reference {!r} at position {}: {!r}"
+                    raise RegexError(msg.format('\\' + pattern[pos], pos - 1, pattern))
                 regex.append('\\%s' % pattern[pos])
                 reference = DIGITS_PATTERN.match(pattern[pos:]).group()  # type: ignore[union-attr]
                 if len(reference) > 1:
@@ -265,8 +278,11 @@ def translate_pattern(pattern: str, flags: int = 0, xsd_version: str = '1.0',
                 else:
                     regex.append(p_shortcut_group)
 
-            else:
+            elif pattern[pos] in 'nrt\\|.-^?*+{}()[]$sSdDwW':
                 regex.append('\\%s' % pattern[pos])
+            else:
+                msg = "invalid escape sequence {!r} at position {}: {!r}"
+                raise RegexError(msg.format('\\' + pattern[pos], pos - 1, pattern))
         else:
             regex.append(ch)
         pos += 1
